@@ -3,16 +3,17 @@
 # Applies a seeded change in a scratch worktree of /repo (never in /repo itself), runs the given
 # checks (quick tier) against that tree, prints their VIOLATION lines and exit codes, removes the worktree.
 set -u
+ROOT=$(cd "$(dirname "$0")/.." && pwd)
 PATCH="$1"; shift
 WT=/tmp/seedrun-$$
 git -C /repo worktree add --detach "$WT" HEAD >/dev/null 2>&1 || exit 2
 if ! git -C "$WT" apply "$PATCH" 2>/dev/null && ! git -C "$WT" apply -3 "$PATCH"; then echo "patch does not apply"; git -C /repo worktree remove --force "$WT"; exit 2; fi
 for P in "$@"; do
-  VERIF_REPO="$WT" /verif/check "$P" quick > /tmp/seedrun-$$-$P.out 2>&1
+  VERIF_REPO="$WT" "$ROOT/check" "$P" quick > /tmp/seedrun-$$-$P.out 2>&1
   echo "== $P rc=$? $(grep -c '^VIOLATION' /tmp/seedrun-$$-$P.out) violation line(s)"
   grep -E "^VIOLATION|violation:|broken:" /tmp/seedrun-$$-$P.out | head -6
   rm -f /tmp/seedrun-$$-$P.out
 done
 git -C /repo worktree remove --force "$WT"
 TAG=$(printf %s "$WT" | sha256sum | cut -c1-8)
-rm -rf /verif/.build/*-alt$TAG
+rm -rf "$ROOT"/.build/*-alt$TAG
